@@ -272,6 +272,11 @@ class HillClimbSearch(StructureEstimator):
             raise ValueError(
                 "'start_dag' should be a DAG with the same variables as the data set, or 'None'."
             )
+        else:
+            # Work on a copy so that the DAG passed by the user isn't modified.
+            latents = set(start_dag.latents)
+            start_dag = start_dag.copy()
+            start_dag.latents = latents
 
         # Step 1.3: Check fixed_edges
         if not hasattr(fixed_edges, "__iter__"):
